@@ -148,4 +148,116 @@ class C20Plan(RunPlan):
         return path
 
 
-PLANS = {"C20": C20Plan}
+class C19Plan(RunPlan):
+    prop = "C19"
+    engine = "A"
+    level = "fault_enumeration"
+    quick_runs = 1200
+    thorough_runs = 60000
+    rule = ("three parts. (1) ENUMERATED crash points (the fault_enumeration claim): for each call of the "
+            "definitional corpus (sim/c19_corpus.py: every definitional entry point in each object state) "
+            "and each boot, an asynchronous exception is injected at EVERY line-event ordinal 1..n executed "
+            "in library code by that call, one fresh forked world per ordinal; clause (c) compares a deep "
+            "registry snapshot taken after argument evaluation with the state after the raise. "
+            "(2) seeded histories (exploration): <=60 operations mixing anonymous construction, naming in "
+            "all orders, F1 validation failures (duplicate name / duplicate symbol / symbol with a space / both, "
+            "in every argument position, on fresh and already-aliased objects), late imports, cache eviction and "
+            "at most one F2; clauses (a),(b),(c) after every declaration. (3) the boot tracer's log of every "
+            "shipped declaration under each boot (import orders/subsets): clauses (a),(b) for each declared "
+            "name/symbol. evaluations = simulated runs of (1)+(2)+(3); a run is non-trivial if it evaluated >=1 "
+            "clause; distinct = distinct event-log digests among them.")
+
+    def params(self, tier):
+        return {"late_imports": list(ALL_MODULES), "faults": True}
+
+    def boots(self, tier, seed):
+        return std_boots(seed, 2 if tier == "quick" else 8)
+
+    def extra_checks(self, tier, seed, pool, findings):
+        from sim import c19_corpus
+
+        boots = self.boots(tier, seed)
+        enum_boots = boots[:2] if tier == "quick" else boots
+        violations = []
+        ev = {}
+        # ---- (3) shipped declarations under each boot (needs the boot tracer)
+        decl_boots = [dict(b, trace=True) for b in boots]
+        if tier == "thorough":
+            decl_boots += [{"imports": [m], "trace": True, "opt": False, "hashseed": 0} for m in ALL_MODULES]
+        res = pool.run([(b, {"engine": "BOOT", "what": "c19_declared", "timeout": 120}) for b in decl_boots])
+        shipped_checked = 0
+        for b, r in zip(decl_boots, res):
+            if "harness_error" in r:
+                raise driver.HarnessError(r["harness_error"])
+            shipped_checked += r["counters"]["C19.shipped.checked"]
+            for v in r["violations"]:
+                violations.append(dict(v, boot=b, request={"engine": "BOOT", "what": "c19_declared"}))
+        ev["shipped_declarations_checked"] = shipped_checked
+        ev["shipped_declaration_boots"] = len(decl_boots)
+        # ---- (1) exhaustive F2 enumeration
+        snap_tasks = []
+        for b in enum_boots:
+            t = driver.Template(b)
+            try:
+                snap = t.request({"kind": "bootinfo"})["snapshot"]
+            finally:
+                t.close()
+            for c in c19_corpus.corpus(snap):
+                ops = c["setup"] + [dict(c["target"], inject={"ordinal": 0, "exc": "KeyboardInterrupt"})]
+                snap_tasks.append((b, c, {"engine": "A", "prop": "C19", "ops": ops,
+                                          "opts": {"want_log": True}, "timeout": 120}))
+        counts = pool.run([(b, r) for b, c, r in snap_tasks])
+        tasks = []
+        meta = []
+        calls = 0
+        for (b, c, r0), res0 in zip(snap_tasks, counts):
+            if "harness_error" in res0:
+                raise driver.HarnessError(res0["harness_error"])
+            rec = res0["log"][-1]
+            n = rec.get("inject", {}).get("lines", 0)
+            calls += 1
+            for k in range(1, n + 1):
+                exc = "KeyboardInterrupt" if k % 2 else "MemoryError"
+                ops = c["setup"] + [dict(c["target"], inject={"ordinal": k, "exc": exc})]
+                tasks.append((b, {"engine": "A", "prop": "C19", "ops": ops, "timeout": 120}))
+                meta.append((c["name"], k, n))
+        results = pool.run(tasks)
+        sigs = {}
+        fired = 0
+        atomic = 0
+        for (b, req), (cname, k, n), r in zip(tasks, meta, results):
+            if "harness_error" in r:
+                raise driver.HarnessError(r["harness_error"])
+            fired += r.get("faults_fired", {}).get("F2", 0)
+            vs = [v for v in r["violations"]]
+            if not vs:
+                atomic += 1
+            for v in vs:
+                sigs[v["signature"]] = sigs.get(v["signature"], 0) + 1
+                violations.append(dict(v, boot=b, request=req,
+                                       detail=dict(v.get("detail") or {}, corpus=cname, ordinal=k, of=n)))
+        ev["f2_enumeration"] = {
+            "exhaustive": True, "corpus_calls": calls, "boots": len(enum_boots),
+            "crash_points_enumerated": len(tasks), "injections_fired": fired,
+            "crash_points_leaving_registries_unchanged": atomic,
+            "signatures": sigs,
+        }
+        self.enum_results = results
+        # one VIOLATION per signature is enough
+        seen = set()
+        uniq = []
+        for v in violations:
+            if v["signature"] not in seen:
+                seen.add(v["signature"])
+                uniq.append(v)
+        return uniq, ev
+
+    def evidence(self, tier, seed, t0, tasks, results, by_sig, known_seen, st, **kw):
+        extra = kw.get("extra") or {}
+        enum = getattr(self, "enum_results", None) or []
+        # enumerated runs count as evaluations too
+        super().evidence(tier, seed, t0, tasks + [(tasks[0][0], {})] * len(enum) if tasks else tasks,
+                         results + enum, by_sig, known_seen, st, **kw)
+
+
+PLANS = {"C20": C20Plan, "C19": C19Plan}
